@@ -18,7 +18,7 @@
   Narrowings of the C++ made explicit here:
     note_pitch, pitch, last_pitch : uint16_t  (`% 65536`)
     ins_transpose : int8_t, `(int8_t) get_var(PAN)`                       (`wrap8`)
-    (after the `fix:` commits eca7ac3 / 764d07f the FM total level and the PSG attenuation are
+    (after the `fix:` commits 1e7d217 / 4eed0c2 the FM total level and the PSG attenuation are
      computed in `int` and clamped, no 8-bit wrap; `get_psg_volume` takes a `uint16_t`)
     tempo_delta : uint8_t (`% 256`), tempo_counter 7 bits, env_pos : uint8_t
     bpm_to_delta: `uint16_t bpm`; the double expression `(bpm/base)*256 + 0.5 - 1` is
